@@ -68,6 +68,7 @@ struct Graph {
     /// pause plan: a thread about to take `second` while holding `first` waits until some other
     /// thread holds `other_first` (ids are class letters, instance independent)
     pauses_done: u64,
+    pause_candidates: u64,
 }
 
 pub struct LockMon {
@@ -154,9 +155,21 @@ impl Observer for Obs {
         let plan = m.pause_plan.lock().ok().and_then(|p| p.clone());
         if let Some((first, second)) = plan {
             if sc == second && held.iter().any(|(_, c)| short_class(c) == first) {
-                // hold back briefly so that the opposite order can get its first lock
-                graph().pauses_done += 1;
-                std::thread::sleep(Duration::from_millis(30));
+                // hold back briefly so that the opposite order can get its first lock (every 5th occurrence, at
+                // most 80 times per run: the workload must keep moving)
+                let go = {
+                    let mut g = graph();
+                    g.pause_candidates += 1;
+                    if g.pause_candidates % 5 == 1 && g.pauses_done < 80 {
+                        g.pauses_done += 1;
+                        true
+                    } else {
+                        false
+                    }
+                };
+                if go {
+                    std::thread::sleep(Duration::from_millis(30));
+                }
             }
         }
         let mut g = graph();
